@@ -52,7 +52,14 @@ def _call(mod, fn, x, form):
         pad = (-n) % 2
         a2 = np.concatenate([a, a[:pad]]).reshape(2, -1)
         return np.asarray(f(a2)).reshape(-1)[:n]
+    if form.startswith("dt:"):
+        return np.asarray(f(np.array(x, dtype=np.float64).astype(form[3:])), dtype=np.float64)
+    if form == "pyint":
+        return np.array([np.asarray(f(int(v)), dtype=np.float64).reshape(()) for v in x], dtype=np.float64)
     raise ValueError(form)
+
+
+DTYPE_FORMS = ["dt:f4", "dt:>f4", "dt:>f8", "dt:i8", "dt:i4", "dt:u2", "pyint"]
 
 
 def _layer_z(z, const):
@@ -183,6 +190,27 @@ def run(ctx):
                 ctx.violation("forms_agree", {"kind": "zform", "z": zs[i], "module": mname, "form": form}, base_P[i], Pf[i])
             for i in np.where(zf.view(np.int64) != base_z.view(np.int64))[0][:20]:
                 ctx.violation("forms_agree", {"kind": "pform", "p": ps[i], "module": mname, "form": form}, base_z[i], zf[i])
+    # the same numbers handed in as single-precision, byte-swapped and integer arrays / Python ints (the FITS cloud maps
+    # hand big-endian float32 pressures to these functions): the double-precision result for the numbers held, bit for bit
+    for mname, mod in mods.items():
+        for form in DTYPE_FORMS:
+            integer = form in ("pyint",) or form[3:4] in ("i", "u")
+            zs_f = np.arange(0, 121, 1.0) if integer else np.unique(np.concatenate([zs.astype("f4").astype(float), np.arange(0, 121, 1.0)]))
+            zs_f = zs_f[(zs_f >= 0) & (zs_f <= 120)]
+            ps_f = np.array([1.0, 2.0, 5.0, 10.0, 54.0, 55.0, 100.0, 868.0, 869.0, 1000.0, 5474.0, 5475.0, 22632.0, 22633.0, 50000.0, 65535.0][: 16 if form != "dt:u2" else 16]) if integer else np.unique(ps.astype("f4").astype(float))
+            if integer and form not in ("dt:u2",):
+                ps_f = np.concatenate([ps_f, [101325.0, 100000.0]])
+            ps_f = ps_f[(ps_f > 0) & (ps_f <= const.std_atm_ground_pressure)]
+            for fn, xs, kind, key in (("us_std_atm_pressure_from_altitude", zs_f, "zdtype", "z"), ("us_std_atm_altitude_from_pressure", ps_f, "pdtype", "p")):
+                base = _call(mod, fn, xs, "1d")
+                ctx.tick(len(xs), ("dtype_form", mname, form, key))
+                try:
+                    got = _call(mod, fn, xs, form)
+                except Exception as ex:
+                    ctx.violation("input_form_no_exception", {"kind": kind, key: float(xs[0]), "module": mname, "form": form, "all": True}, "values", f"{type(ex).__name__}: {str(ex)[:100]}")
+                    continue
+                for i in np.where(got.view(np.int64) != base.view(np.int64))[0][:5]:
+                    ctx.violation("forms_agree", {"kind": kind, key: float(xs[i]), "module": mname, "form": form}, base[i], got[i])
     ctx.sample({"z": float(zb[1]), "P": float(A.us_std_atm_pressure_from_altitude(zb[1])), "what": "layer boundary 2"})
     k = int(ctx.rng.integers(len(z)))
     ctx.sample({"z": float(z[k]), "P": float(ref_P[k]), "z_back": float(ref_zr[k])})
@@ -239,6 +267,16 @@ def replay(case):
             out.append(("modules_agree", res[0], res[1]))
     elif k == "ends":
         out += _ends(mods[names[0]], case["form"])
+    elif k in ("zdtype", "pdtype"):
+        fn = "us_std_atm_pressure_from_altitude" if k == "zdtype" else "us_std_atm_altitude_from_pressure"
+        x = [case["z"] if k == "zdtype" else case["p"]]
+        a = _call(mods[names[0]], fn, x, "1d")[0]
+        try:
+            b = _call(mods[names[0]], fn, x, case["form"])[0]
+        except Exception as ex:
+            return [("input_form_no_exception", "values", f"{type(ex).__name__}: {str(ex)[:100]}")]
+        if np.float64(a).tobytes() != np.float64(b).tobytes():
+            out.append(("forms_agree", a, b))
     elif k == "zform":
         a = _call(mods[names[0]], "us_std_atm_pressure_from_altitude", [case["z"]], "1d")[0]
         b = _call(mods[names[0]], "us_std_atm_pressure_from_altitude", [case["z"]], case["form"])[0]
